@@ -3,6 +3,7 @@ package main
 import (
 	"fmt"
 	"go/ast"
+	"go/token"
 	"go/types"
 	"sort"
 	"strings"
@@ -484,9 +485,27 @@ func ruleAnswers(r *Run) {
 							isConflictArm := false
 							for j := 0; j < a.Idx; j++ {
 								pe := path.Events[j]
-								if pe.Kind == EvGuard && pe.GKind == GSwitchCase && pe.Val {
-									if c := constOf(pe.Fn.Info(), pe.Cond); c != nil && c.Name() == "ErrEntityComponentTypeAlreadyAdded" {
-										isConflictArm = true
+								if pe.Kind != EvGuard || pe.Cond == nil {
+									continue
+								}
+								mentions := false
+								ast.Inspect(pe.Cond, func(n ast.Node) bool {
+									if c := constOfNode(pe.Fn.Info(), n); c != nil && c.Name() == "ErrEntityComponentTypeAlreadyAdded" {
+										mentions = true
+									}
+									return true
+								})
+								if !mentions {
+									continue
+								}
+								switch {
+								case pe.GKind == GSwitchCase:
+									isConflictArm = isConflictArm || pe.Val
+								default:
+									// errors.Type(err) == AlreadyAdded (or !=): equal on this outcome?
+									if be, ok := ast.Unparen(pe.Cond).(*ast.BinaryExpr); ok {
+										eq := (be.Op == token.EQL) == pe.Val
+										isConflictArm = isConflictArm || eq
 									}
 								}
 							}
